@@ -1,3 +1,166 @@
-(* C06/Props.v -- property theorems only *)
-From Coq Require Import Reals List Bool.
-From Verif Require Import Base.Num Base.Vec C06.Syntax Gen.UfuncDeriv C06.Model C06.Proofs.
+(* C06/Props.v -- property theorems only; each is closed by [exact] of a lemma of
+   C06/Proofs.v (Calc.v, Lin.v, Leaves.v) and followed by Print Assumptions.
+
+   The model (C06/Model.v): [oexpr] = the ten expression classes of
+   odl/operator/operator.py over the leaf operators of default_ops.py /
+   ufunc_ops.py; [eval] = _call; [derivative] = the .derivative methods
+   (with the "linear => self" shortcuts, the inner points, the overloads used
+   to assemble the result); [deriv_ok] = whether the call returns or raises;
+   [is_lin] = the flag computed by the constructors; [wt] = their space checks.
+   The ufunc tables [ufunc_deriv]/[ufunc_grad]/[ufunc_linear] are REGENERATED
+   from odl/ufunc_ops/ufunc_ops.py on every run (Gen/UfuncDeriv.v).
+
+   Notions (C06/Calc.v, C06/Lin.v), all over the standard-library reals:
+   [curve n g x d]   g : R -> R^n passes through x at 0 and every entry is
+                     differentiable at 0 ([derivable_pt_lim]) with velocity d;
+   [hdiff n m F x L] F maps every such curve to a curve through F x with
+                     velocity L d -- Hadamard differentiability, which on R^n
+                     is Frechet differentiability with derivative L;
+   [blin n m L]      L maps R^n to R^m, is additive and homogeneous, and is its
+                     own derivative at every point.
+   [regular e x]     every leaf met when evaluating e at x (at the inner points
+                     the rules use) is at a point where its scalar function is
+                     differentiable: no 0 for reciprocal / negative powers,
+                     positive arguments for sqrt / log, cos <> 0 for tan.
+                     (Norm/Dist singularities are covered by [deriv_ok]: the
+                     code raises there.) *)
+From Coq Require Import Reals List Bool ZArith.
+From Verif Require Import Base.Num Base.Vec C06.Syntax Gen.UfuncDeriv C06.Model C06.Calc C06.Lin C06.Leaves C06.Proofs.
+Import ListNotations.
+Local Open Scope R_scope.
+
+(* T1. For EVERY expression tree e (any depth, any mix of the ten classes and of
+   the leaves), every point x at which derivative(x) returns and which is
+   regular: the returned object D
+     (1) evaluates to the Frechet/Hadamard derivative of e at x,
+     (2) is a (bounded) linear map from e.domain to e.range,
+     (3) is flagged linear, (4) passes the constructors' space checks,
+     (5,6) has the domain and range of e.
+   User-defined leaves [LAbs k] are arbitrary: the only premise is that THEIR
+   derivative is right (af k / ad k); everything the combinators add -- which
+   inner point, which scalar multiplies what, linear shortcuts -- is proved. *)
+Theorem derivative_is_frechet :
+  forall (af : nat -> list R -> list R) (ad : nat -> list R -> list R -> list R) (adm arn : nat -> space),
+  (forall k x, length x = sdim (adm k) ->
+     hdiff (sdim (adm k)) (sdim (arn k)) (af k) x (ad k x) /\
+     blin (sdim (adm k)) (sdim (arn k)) (ad k x)) ->
+  forall (e : @oexpr R) (x : list R),
+  let P := PR af ad adm arn in
+  wt P e = true -> length x = sdim (dom P e) -> deriv_ok P e x = true -> regular af ad adm arn e x ->
+  let D := derivative P e x in
+  hdiff (sdim (dom P e)) (sdim (ran P e)) (eval P e) x (eval P D) /\
+  blin (sdim (dom P e)) (sdim (ran P e)) (eval P D) /\
+  is_lin D = true /\ wt P D = true /\ dom P D = dom P e /\ ran P D = ran P e.
+Proof. exact deriv_sound. Qed.
+Print Assumptions derivative_is_frechet.
+
+(* T1, in the words of the property: the action of derivative(x) on any
+   direction d is the limit of the central difference quotient
+   (op(x + h d) - op(x - h d)) / (2h), entry by entry. *)
+Theorem derivative_is_central_difference_limit :
+  forall (af : nat -> list R -> list R) (ad : nat -> list R -> list R -> list R) (adm arn : nat -> space),
+  (forall k x, length x = sdim (adm k) ->
+     hdiff (sdim (adm k)) (sdim (arn k)) (af k) x (ad k x) /\
+     blin (sdim (adm k)) (sdim (arn k)) (ad k x)) ->
+  forall (e : @oexpr R) (x : list R),
+  let P := PR af ad adm arn in
+  wt P e = true -> length x = sdim (dom P e) -> deriv_ok P e x = true -> regular af ad adm arn e x ->
+  forall d, length d = sdim (dom P e) -> forall i, (i < sdim (ran P e))%nat ->
+  forall eps, 0 < eps -> exists delta, 0 < delta /\
+    forall h, h <> 0 -> Rabs h < delta ->
+      Rabs ((nth i (eval P e (vadd x (vscal h d))) 0 - nth i (eval P e (vadd x (vscal (- h) d))) 0) / (2 * h)
+            - nth i (eval P (derivative P e x) d) 0) < eps.
+Proof. exact deriv_central. Qed.
+Print Assumptions derivative_is_central_difference_limit.
+
+(* "Linear operators are their own derivative": a tree the constructors flag
+   linear IS a bounded linear map (so the shortcut `return self` is justified),
+   and whatever object derivative(x) returns for it acts exactly like e. *)
+Theorem flagged_linear_is_linear :
+  forall (af : nat -> list R -> list R) (ad : nat -> list R -> list R -> list R) (adm arn : nat -> space),
+  (forall k x, length x = sdim (adm k) ->
+     hdiff (sdim (adm k)) (sdim (arn k)) (af k) x (ad k x) /\
+     blin (sdim (adm k)) (sdim (arn k)) (ad k x)) ->
+  forall (e : @oexpr R),
+  let P := PR af ad adm arn in
+  is_lin e = true -> wt P e = true -> blin (sdim (dom P e)) (sdim (ran P e)) (eval P e).
+Proof. exact lin_blin. Qed.
+Print Assumptions flagged_linear_is_linear.
+
+Theorem linear_is_own_derivative :
+  forall (af : nat -> list R -> list R) (ad : nat -> list R -> list R -> list R) (adm arn : nat -> space),
+  (forall k x, length x = sdim (adm k) ->
+     hdiff (sdim (adm k)) (sdim (arn k)) (af k) x (ad k x) /\
+     blin (sdim (adm k)) (sdim (arn k)) (ad k x)) ->
+  forall (e : @oexpr R) (x : list R),
+  let P := PR af ad adm arn in
+  is_lin e = true -> wt P e = true -> length x = sdim (dom P e) ->
+  deriv_ok P e x = true -> regular af ad adm arn e x ->
+  forall d, length d = sdim (dom P e) -> eval P (derivative P e x) d = eval P e d.
+Proof. exact lin_deriv_self. Qed.
+Print Assumptions linear_is_own_derivative.
+
+(* "Affine ones have the derivative of their linear part" *)
+Theorem affine_has_derivative_of_linear_part :
+  forall (af : nat -> list R -> list R) (ad : nat -> list R -> list R -> list R) (adm arn : nat -> space),
+  (forall k x, length x = sdim (adm k) ->
+     hdiff (sdim (adm k)) (sdim (arn k)) (af k) x (ad k x) /\
+     blin (sdim (adm k)) (sdim (arn k)) (ad k x)) ->
+  forall (a : @oexpr R) (v x : list R),
+  let P := PR af ad adm arn in
+  is_lin a = true -> wt P (OVecSum a v) = true -> length x = sdim (dom P a) ->
+  deriv_ok P a x = true -> regular af ad adm arn a x ->
+  forall d, length d = sdim (dom P a) -> eval P (derivative P (OVecSum a v) x) d = eval P a d.
+Proof. exact affine_deriv. Qed.
+Print Assumptions affine_has_derivative_of_linear_part.
+
+(* The derivative is unique, so the statements above determine derivative(x)(d). *)
+Theorem frechet_derivative_unique :
+  forall n m (F : list R -> list R) x (L L' : list R -> list R),
+  hdiff n m F x L -> hdiff n m F x L' -> length x = n ->
+  forall d, length d = n -> L d = L' d.
+Proof. exact hdiff_unique. Qed.
+Print Assumptions frechet_derivative_unique.
+
+(* T1. Every entry of the derivative table REGENERATED from
+   ufunc_ops.derivative_factory is the derivative of its ufunc (sin |-> cos,
+   tan |-> 1 + tan^2, sqrt |-> 0.5/sqrt, reciprocal |-> -(1/x)^2, ...) on the
+   ufunc's domain of differentiability; same for gradient_factory (ufunc
+   functionals on the real line). *)
+Theorem ufunc_derivative_table_correct :
+  forall (af : nat -> list R -> list R) (ad : nat -> list R -> list R -> list R) (adm arn : nat -> space),
+  forall (f : ufn) (e : uex), ufunc_deriv f = Some e ->
+  forall a : R, uregular f a ->
+  derivable_pt_lim (usem (PR af ad adm arn) f) a (ueval (PR af ad adm arn) e a).
+Proof. exact ufunc_deriv_table_sound. Qed.
+Print Assumptions ufunc_derivative_table_correct.
+
+Theorem ufunc_gradient_table_correct :
+  forall (af : nat -> list R -> list R) (ad : nat -> list R -> list R -> list R) (adm arn : nat -> space),
+  forall (f : ufn) (e : uex), ufunc_grad f = Some e ->
+  forall a : R, uregular f a ->
+  derivable_pt_lim (usem (PR af ad adm arn) f) a (ueval (PR af ad adm arn) e a).
+Proof. exact ufunc_grad_table_sound. Qed.
+Print Assumptions ufunc_gradient_table_correct.
+
+(* ufuncs listed in LINEAR_UFUNCS (regenerated) really are linear *)
+Theorem ufunc_linear_flag_correct :
+  forall (af : nat -> list R -> list R) (ad : nat -> list R -> list R -> list R) (adm arn : nat -> space),
+  forall f : ufn, ufunc_linear f = true -> exists c : R, forall a : R, usem (PR af ad adm arn) f a = c * a.
+Proof. exact ufunc_linear_scale. Qed.
+Print Assumptions ufunc_linear_flag_correct.
+
+(* ---- the premise on user-defined leaves is satisfiable: the harness's own
+   user-defined operator x |-> x^3 - x with derivative d |-> (3x^2 - 1) d ---- *)
+Example user_leaf_premise_holds :
+  forall k x, length x = sdim (ex_dm k) ->
+  hdiff (sdim (ex_dm k)) (sdim (ex_dm k)) (ex_af k) x (ex_ad k x) /\
+  blin (sdim (ex_dm k)) (sdim (ex_dm k)) (ex_ad k x).
+Proof. exact ex_Habs. Qed.
+
+(* ---- and the premises on (e, x) are satisfiable by a tree using every class ---- *)
+Example premises_hold :
+  let P := PR ex_af ex_ad ex_dm ex_dm in
+  wt P ex_tree = true /\ is_lin ex_tree = false /\ length [1; 2] = sdim (dom P ex_tree) /\
+  deriv_ok P ex_tree [1; 2] = true /\ regular ex_af ex_ad ex_dm ex_dm ex_tree [1; 2].
+Proof. exact ex_premises. Qed.
